@@ -56,6 +56,18 @@ CHECKS["C05"] = dict(
          "bounds.",
     design="4/C05", technique=TECH_A)
 
+CHECKS["C06"] = dict(
+    text="Placement decided on the real control flow: both placement predicates over their truth table; PageRenderer.render "
+         "with role-token services against the block sequence the statement prescribes (quick: upper and lower half of the "
+         "page per keyword combination; thorough: the full product in 27 partitions); the figure-only encoder for 1..3(4) "
+         "figures; header/footer groups of the document skeleton; needs_header/first/last/page rows of the three paginate() "
+         "methods on a polars model; and, bit-exactly over IEEE-754 doubles (engine B), that every page break restates the "
+         "paper size and margins of the document start for all sizes in range.",
+    note="Trusted: z3 (QF_FP), CrossHair, the proxy-number tracer (validated against the plain interpreter on seeded vectors "
+         "every run), role-token services, the polars model vf.minipl. Outside: documents with more pages/figures than "
+         "stated.",
+    design="4/C06", technique=TECH_A + "; shadow-valued tracing of the real float code into z3 QF_FP terms")
+
 NOT_APPLICABLE = {
     "C18": "file-system crash-point property: effects of pathlib/tempfile/shutil and an external converter are opaque to "
            "(and blocked under) symbolic execution; a model of the file system would verify the model, not the effects",
